@@ -143,6 +143,9 @@ func (sc *specCtx) eval(e Expr) Val {
 				// through the sequence view: quantifier patterns then avoid arithmetic
 				return Val{T: app("sq_at", app("sq_of", sel(r, app("sl_arr", x.T)), app("sl_off", x.T), app("sl_len", x.T)), i.T), S: es, GT: et}
 			}
+			if es == SInt {
+				return Val{T: app("sl_ielem", sel(r, app("sl_arr", x.T)), app("sl_off", x.T), i.T), S: es, GT: et}
+			}
 			return Val{T: sel(sel(r, app("sl_arr", x.T)), fmt.Sprintf("(+ (sl_off %s) %s)", x.T, i.T)), S: es, GT: et}
 		case STuple:
 			specFail("cannot index a tuple with [] (use result.N)")
@@ -262,11 +265,23 @@ func (sc *specCtx) evalBinary(e *Binary) Val {
 		if y.S == SSlice && x.S == SSeq {
 			y = sc.viewOfSlice(y)
 		}
-		if x.S == SU && y.S == SInt {
-			y = Val{T: app("box_Int", y.T), S: SU}
+		boxOf := func(v Val) Val {
+			switch v.S {
+			case SInt, SBool, SStr, SF64, SC128, SSlice:
+				b := app("box_"+v.S.Short(), v.T)
+				if !strings.Contains(v.T, "q_") {
+					// boxing is injective
+					sc.st.pc = append(sc.st.pc, eq(app("unbox_"+v.S.Short(), b), v.T))
+				}
+				return Val{T: b, S: SU}
+			}
+			return v
 		}
-		if y.S == SU && x.S == SInt {
-			x = Val{T: app("box_Int", x.T), S: SU}
+		if x.S == SU && y.S != SU {
+			y = boxOf(y)
+		}
+		if y.S == SU && x.S != SU {
+			x = boxOf(x)
 		}
 		if x.S != y.S {
 			specFail("%s: comparing sorts %s and %s", e, x.S.Short(), y.S.Short())
@@ -342,6 +357,14 @@ func (sc *specCtx) evalField(e *FieldE) Val {
 			rn := fieldRegion(named.Origin(), f.Name())
 			r := sc.fc.regionIn(sc.st, sc.heap, rn, regionArraySort(fs))
 			v := Val{T: sel(r, x.T), S: fs, GT: f.Type()}
+			if fs == SSlice && !strings.Contains(v.T, "q_") {
+				sc.st.pc = append(sc.st.pc, fmt.Sprintf("(and (<= 0 (sl_off %s)) (<= 0 (sl_len %s)) (<= (sl_len %s) (sl_cap %s)) (<= (sl_cap %s) MAXLEN))", v.T, v.T, v.T, v.T, v.T))
+			}
+			if fs == SInt && !strings.Contains(v.T, "q_") {
+				if lo, hi, ok := intRange(f.Type()); ok {
+					sc.st.pc = append(sc.st.pc, fmt.Sprintf("(and (<= %s %s) (<= %s %s))", lo, v.T, v.T, hi))
+				}
+			}
 			if fs == SU && !strings.Contains(v.T, "q_") && sc.now != "" && sc.now != "0" {
 				switch f.Type().Underlying().(type) {
 				case *types.Pointer, *types.Interface, *types.Map, *types.Chan:
@@ -672,6 +695,13 @@ func (sc *specCtx) evalCall(e *CallE) Val {
 		a := args(2)
 		sc.want(a[0], SStr, e)
 		return boolVal(app("str_lt", a[0].T, a[1].T))
+	case "runes":
+		a := args(1)
+		sc.want(a[0], SStr, e)
+		return intVal(app("str_runes", a[0].T))
+	case "unboxStr":
+		a := args(1)
+		return Val{T: app("unbox_Str", a[0].T), S: SStr}
 	case "unboxBool":
 		a := args(1)
 		return boolVal(app("unbox_Bool", a[0].T))
